@@ -394,6 +394,7 @@ type Network struct {
 	blackhole map[string]bool
 	conns     []*pair
 	dials     int
+	down      bool
 	wg        sync.WaitGroup
 }
 
@@ -439,6 +440,9 @@ func (n *Network) Dial(ctx context.Context, network, addr string) (net.Conn, err
 	}
 	h := n.handlers[addr]
 	bh := n.blackhole[addr]
+	if n.down {
+		h, bh = nil, false
+	}
 	if h == nil && !bh {
 		n.mu.Unlock()
 		return nil, &net.OpError{Op: "dial", Net: network, Addr: Addr{network, addr}, Err: syscall.ECONNREFUSED}
@@ -447,9 +451,11 @@ func (n *Network) Dial(ctx context.Context, network, addr string) (net.Conn, err
 	p.clientEnd = &end{p: p, isClient: true}
 	p.serverEnd = &end{p: p}
 	n.conns = append(n.conns, p)
+	if !bh {
+		n.wg.Add(1) // under the lock: Shutdown marks the network down before it waits
+	}
 	n.mu.Unlock()
 	if !bh {
-		n.wg.Add(1)
 		go func() {
 			defer n.wg.Done()
 			h(&ServerConn{p.serverEnd})
@@ -518,6 +524,7 @@ func (n *Network) Dials() int {
 // Shutdown closes the server side of every connection and waits for handlers.
 func (n *Network) Shutdown() {
 	n.mu.Lock()
+	n.down = true // later dials are refused
 	ps := append([]*pair{}, n.conns...)
 	n.mu.Unlock()
 	for _, p := range ps {
